@@ -200,7 +200,7 @@ func (g *g2) inject(defs *[]SDef) string {
 	ds := *defs
 	i := r.Intn(len(ds))
 	for try := 0; try < 10; try++ {
-		switch r.Intn(11) {
+		switch r.Intn(12) {
 		case 0:
 			var cs []*SNode
 			collect(ds[i].Body, func(n *SNode) {
@@ -306,6 +306,41 @@ func (g *g2) inject(defs *[]SDef) string {
 		case 8:
 			ds[i].Ann = ""
 			return "annotation-erased"
+		case 10:
+			// a shift directly under a shift, each legal by itself, but the inner one does not
+			// arrive at the mode the outer one starts from
+			var cs []*SNode
+			collect(ds[i].Body, func(n *SNode) {
+				if n.K == KUp || n.K == KDown {
+					cs = append(cs, n)
+				}
+			})
+			if len(cs) == 0 {
+				i = r.Intn(len(ds))
+				continue
+			}
+			c := cs[r.Intn(len(cs))]
+			f, ok := ParseMode(c.From)
+			if !ok {
+				continue
+			}
+			var ups, downs []Mode
+			for _, k := range AllModes {
+				if k != f && Geq(k, f) {
+					ups = append(ups, k)
+				}
+				if k != f && Geq(f, k) {
+					downs = append(downs, k)
+				}
+			}
+			if len(ups) > 0 && (len(downs) == 0 || r.Intn(2) == 0) {
+				c.L = &SNode{K: KUp, From: g.sp(f), To: g.sp(ups[r.Intn(len(ups))]), L: c.L}
+			} else if len(downs) > 0 {
+				c.L = &SNode{K: KDown, From: g.sp(f), To: g.sp(downs[r.Intn(len(downs))]), L: c.L}
+			} else {
+				continue
+			}
+			return "shift-chain-mismatch"
 		case 9:
 			// direct self alias
 			*defs = append(*defs, SDef{Name: "Selfy", Body: &SNode{K: KName, Name: "Selfy"}})
